@@ -215,3 +215,16 @@ claim("C07",
       "'every accepted program compiles to valid SQL of the dialect' is NOT what is proved.",
       "dialect flags and translate_cte are parameters / externals of the slices; the rest of except(), translate_query and "
       "translate_set_ops_pipeline is dropped.")
+
+prop("C06", ["desugar", "sort_take", "sql_prec"],
+     select={"sql_prec": lambda n: n.split(".", 1)[1] in ("NP6a", "NP6b", "TO1", "WP2", "try_into_between.safety", "translate_operand.safety")},
+     not_covered="let / into naming, user-function beta-reduction (fold_function, apply_args_to_closure), named / default arguments, module paths "
+                 "(Resolver over Module hash maps), prune_inputs, compile_relation_instance")
+claim("C06",
+      "PARTIAL. Proved on the real code, for any length: desugar_pipeline turns `v | f1 | .. | fk` into fk(.. f1(v)) (DP1, loop invariant DP2); "
+      "`all` turns the conditions of n consecutive filters into the single right-nested conjunction c1 AND (c2 AND ..) in pipeline order (FC1, FC2), "
+      "which is true on a row exactly when every condition is (FC3, inductive lemma); the rewrite of `lo <= x AND x <= hi` into BETWEEN fires only for "
+      "exactly that shape with one x and keeps lo / hi in place (NP6a-b, relevant to expression-to-function refactorings); the ORDER BY emitted "
+      "with a LIMIT is the embedded or inherited sort (sort_take, relevant to naming a sorted prefix with let / into). NOT proved: let/into, "
+      "beta-reduction, modules.",
+      "expand_expr, the call-node constructors and the meaning of std.and (three-valued AND) are externals / axioms.")
